@@ -460,6 +460,8 @@ def run(rep):
     from pgv.replayers import c10 as R10
     for res in R10.order_cases():
         rep.add_bounded(f"{P}/bounded.{res['name']}", res['ok'], res['detail'], replay={'kind': 'c10.order_case', 'name': res['name']})
+    for res in R10.zero_point_cases():
+        rep.add_bounded(f"{P}/bounded.{res['name']}", res['ok'], res['detail'], replay={'kind': 'c10.zero', 'name': res['name']})
     for res in R10.argument_form_cases():
         rep.add_bounded(f"{P}/bounded.{res['name']}", res['ok'], res['detail'], replay={'kind': 'c10.form', 'name': res['name']})
     rep.notes.append('closed forms decided for all parameters and pressures; numerical inverses decided at the call-site/contract level')
